@@ -49,9 +49,10 @@ def mkParams (p d m r q st x : Nat) (dyn : Bool := false) (lat : Nat := 0) (act 
     badStatus := if p == 1 then statusTable st else [],
     latency := p == 1 && lat == 1,
     -- act = 0: no (modelled) active checks; 4..7: enabled with passes = 1 + (act-4)/2, fails = 1 + (act-4)%2
-    aOn := act ≥ 4,
-    aPasses := if act ≥ 4 then 1 + (act - 4) / 2 else 1,
-    aFails := if act ≥ 4 then 1 + (act - 4) % 2 else 1,
+    closeStreams := act == 8,   -- mode 8: stream_close_delay is not set
+    aOn := act ≥ 4 && act ≤ 7,
+    aPasses := if act ≥ 4 && act ≤ 7 then 1 + (act - 4) / 2 else 1,
+    aFails := if act ≥ 4 && act ≤ 7 then 1 + (act - 4) % 2 else 1,
     dynamic := dyn }
 
 def outcomeNames : List String := ["ok", "sl", "e5", "c404", "c429", "c502", "c503", "rst", "hup", "pan", "her"]
@@ -81,6 +82,9 @@ def parseStep (s : String) (K : Nat) : Option SStep :=
         some (.load ks (mkParams p d m r q st x false (if l == 2 then 0 else 1)) [])
       else if p ≤ 1 && r ≤ 8 && st ≤ 7 && m ≤ 100 && q ≤ 100 && x ≤ 100 && 4 ≤ l && l ≤ 7 && ks.eraseDups.length == ks.length then
         some (.load ks (mkParams p d m r q st x false 0 l) [])
+      else if p ≤ 1 && r ≤ 8 && st ≤ 7 && m ≤ 100 && q ≤ 100 && x ≤ 100 && l == 8 then
+        -- 8 = stream_close_delay unset: unloading the configuration closes its upgraded connections
+        some (.load ks (mkParams p d m r q st x false 0 8) [])
       else none
     | _, _, _, _, _, _, _, _, _ => none
   | ["Y", ks, p, d, m, r, q, st] =>
@@ -217,7 +221,7 @@ def stressOutcome (seed i : Nat) : String :=
   | _ => "abort"
 
 def stressParams : Params :=
-  { passive := true, failDur := 100, maxFails := 100, retries := 0, maxReq := 0, firstMax := 0, badStatus := [500], latency := false, aOn := false, aPasses := 1, aFails := 1, dynamic := false }
+  { passive := true, failDur := 100, maxFails := 100, retries := 0, maxReq := 0, firstMax := 0, badStatus := [500], latency := false, closeStreams := false, aOn := false, aPasses := 1, aFails := 1, dynamic := false }
 
 /-- one request from entry to return, on Host object `i % 2`; returns the new state and how the
     handler returned -/
